@@ -23,6 +23,7 @@ def main(argv=None):
     ap.add_argument("--digests", help="internal: print trace digests of the given run indices")
     ap.add_argument("--isolate", action="store_true", help="internal: execute every --digests index in its own forked child (pristine process state)")
     ap.add_argument("--show", type=int, help="run one seeded run index verbosely")
+    ap.add_argument("--xproc-replay", help="internal: print the interpreter-independent facts (XPROC) of a replay file's run")
     args = ap.parse_args(argv)
     prop = args.prop.upper()
     seed = int(os.environ.get("VERIF_SEED", "0") or 0)
@@ -31,6 +32,15 @@ def main(argv=None):
 
     if args.replay:
         return engine.replay_file(prop, args.replay)
+    if args.xproc_replay:
+        import json
+        engine.setup_process()
+        doc = json.load(open(args.xproc_replay))
+        os.environ["TOASTYSIM_TIER"] = doc.get("tier", "quick")
+        mod = engine.load_prop(prop)
+        r = engine.run_replay(mod, doc["choices"])
+        print("XPROC 0 %s" % json.dumps(r.get("xproc"), sort_keys=True))
+        return 0
     if args.digests:
         engine.setup_process()
         mod = engine.load_prop(prop)
@@ -39,8 +49,11 @@ def main(argv=None):
                 sys.stdout.flush()
                 pid = os.fork()
                 if pid == 0:
+                    import json
                     r = engine.run_seeded(mod, seed, i)
                     print("DIGEST %d %s" % (i, r.get("digest") or "none"))
+                    if r.get("xproc") is not None:
+                        print("XPROC %d %s" % (i, json.dumps(r.get("xproc"), sort_keys=True)))
                     sys.stdout.flush()
                     os._exit(0)
                 os.waitpid(pid, 0)
